@@ -211,8 +211,14 @@ impl World {
         let dir = scratch_root().join(format!("{}-{}", run_tag, n));
         let _ = std::fs::remove_dir_all(&dir);
         std::fs::create_dir_all(&dir).expect("create scratch dir");
+        // event_interval(1): the stepping future regains control after every single task poll, so
+        // a blocking-pool job (cacache file IO) is always waited for before any other task runs;
+        // global_queue_interval(1): the task woken by that job is the next one to run. Together
+        // they make spawn_blocking behave like synchronous IO, which keeps steps deterministic.
         let rt = tokio::runtime::Builder::new_current_thread()
             .enable_all()
+            .event_interval(1)
+            .global_queue_interval(1)
             .start_paused(true)
             .build()
             .expect("runtime");
@@ -323,21 +329,23 @@ impl World {
             let t0 = std::time::Instant::now();
             loop {
                 tokio::task::yield_now().await;
-                if m.global_queue_depth() == 0 && m.worker_local_queue_depth(0) == 0 {
+                // order matters: a blocking-pool job wakes its awaiting task BEFORE its thread
+                // is counted idle again, so look at the pool first and at the queues afterwards
+                // wait for blocking-pool jobs (file IO of cacache) right here, without letting any
+                // other task run meanwhile: real threads, but nothing else moves until they are done
+                loop {
                     let busy = m.num_blocking_threads().saturating_sub(m.num_idle_blocking_threads());
-                    if busy == 0 && m.blocking_queue_depth() == 0 {
-                        break;
-                    }
-                    // a blocking-pool job (file IO of cacache) is in flight: real threads, but
-                    // their result does not depend on when they finish. Parked actors that live
-                    // on the blocking pool are accounted for by the caller (see `blocking_actors`).
-                    if busy <= ctrl.blocking_parked() && m.blocking_queue_depth() == 0 {
+                    let pool_quiet = (busy == 0 || busy <= ctrl.blocking_parked()) && m.blocking_queue_depth() == 0;
+                    if pool_quiet {
                         break;
                     }
                     std::thread::yield_now();
                     if t0.elapsed() > Duration::from_secs(30) {
                         return Err("tokio step: blocking pool busy for 30s".to_string());
                     }
+                }
+                if m.global_queue_depth() == 0 && m.worker_local_queue_depth(0) == 0 {
+                    break;
                 }
             }
             Ok(())
